@@ -452,6 +452,88 @@ def bounded_random(seed_base, programs):
     return run
 
 
+# ----------------------------------------------------------------------------------------------------------
+# Function.get: which dotted names are functions / services (it is asked BEFORE the name is read as a state variable, so a
+# wrong "yes" hides the entity).  Contract, for every history of calls: the answer depends on the functions table and on what
+# Home Assistant says NOW (hass.services.has_service), and the call changes no class-level table.
+# ----------------------------------------------------------------------------------------------------------
+def h_function_get(eng):
+    from . import C12 as c12
+    U = "C16/Function.get"
+    it, w, mod, Fn, S = c12.outgoing_setup(eng)
+    shape = ["d.s", "one-part", "three-parts"][eng.choose(3, "name-shape")]
+    registered = bool(eng.choose(2, "in-functions-table"))
+    d, s_ = PartV(z3.Const("dom", PartS)), PartV(z3.Const("srv", PartS))
+    if shape == "d.s":
+        name = it.concat_str([d, ".", s_])
+        key = name
+    else:
+        name = key = {"one-part": "porch", "three-parts": "a.b.c"}[shape]
+    builtin = Rec(name="registered-function")
+    builtin._fields["__call__"] = lambda i, *a, **k: None
+    if registered:
+        if shape == "d.s":
+            name = key = "light.turn_on"
+        Fn.attrs["functions"] = {key: builtin}
+    answers = []
+
+    def has_service(i, dom, srv):
+        a = z3.Bool(f"has_service_{len(answers)}")
+        answers.append((dom, srv, a))
+        return SV(a)
+    Fn.attrs["hass"]._fields["services"]._fields["has_service"] = has_service
+    before = class_tables(Fn)
+    results = []
+    for n in range(2):
+        n_asked = len(answers)
+        k, v = run_catching(it, lambda: it.call(it.getattr_(Fn, "get"), [name], {}))
+        eng.cover(f"call{n}:{k}")
+        eng.oblige(f"{U}/post.no-exception", k == "ok")
+        if k != "ok":
+            return
+        results.append(v)
+        tag = "first-call" if n == 0 else "later-call"
+        if registered:
+            eng.oblige(f"{U}/post.{tag}.a-registered-function-is-returned", v is builtin)
+            continue
+        if shape != "d.s":
+            eng.oblige(f"{U}/post.{tag}.only-domain-dot-service-names-are-services", v is None)
+            continue
+        asked = answers[n_asked:]
+        ob = eng.oblige(f"{U}/post.{tag}.asks-home-assistant-now", len(asked) == 1 and bool(asked) and
+                        z3.And(it.eq(asked[0][0], d), it.eq(asked[0][1], s_)) is not False)
+        if ob.status == "refuted":
+            ob.witness = {"signature": f"get:{tag}:not-asked", "what": "stale", "call": n}
+        if len(asked) != 1:
+            # no question was put to Home Assistant: the answer cannot follow the current registry.  A service wrapper for a
+            # name Home Assistant does not know hides the state variable of that name.
+            continue
+        yes = asked[0][2]
+        ob = eng.oblige(f"{U}/post.{tag}.a-service-wrapper-iff-the-service-exists-now", z3.Not(yes) if v is None else yes)
+        if ob.status == "refuted":
+            ob.witness = {"signature": f"get:{tag}:stale", "what": "stale", "call": n}
+    after = class_tables(Fn)
+    ob = eng.oblige(f"{U}/frame.no-class-level-table-is-written", before == after)
+    if ob.status == "refuted":
+        ob.witness = {"signature": "get:frame", "what": "stale", "changed": sorted(k for k in set(before) | set(after) if before.get(k) != after.get(k))}
+
+
+def class_tables(cls_rec):
+    """the concrete class-level dict / set / list attributes of a class record, as comparable snapshots"""
+    out = {}
+    for k, v in cls_rec.attrs.items():
+        if isinstance(v, dict):
+            out[k] = ("dict", tuple(sorted((repr(kk), id(vv)) for kk, vv in v.items())))
+        elif isinstance(v, (list, set)):
+            out[k] = (type(v).__name__, tuple(sorted(repr(x) for x in v)))
+    return out
+
+
+def replay_function_get(wj):
+    from replay.native import run_native
+    return run_native("c16_function_get", wj, timeout=120)
+
+
 def harnesses():
     return [
         Harness("State.set", h_set, units=[(ST_PY, "State.set")], replay=replay_set),
@@ -461,6 +543,7 @@ def harnesses():
         Harness("State.exist", h_exist, units=[(ST_PY, "State.exist")]),
         Harness("State.delete", h_delete, units=[(ST_PY, "State.delete"), (ST_PY, "State.set")]),
         Harness("State.getattr", h_getattr_name, units=[(ST_PY, "State.getattr")]),
+        Harness("Function.get", h_function_get, units=[(f"{PKG}/function.py", "Function.get")], replay=replay_function_get),
         Harness("bounded.random-statements", bounded_random(0, 300), units=[(f"{PKG}/eval.py", "AstEval.ast_name"), (f"{PKG}/eval.py", "AstEval.ast_attribute"),
                 (f"{PKG}/eval.py", "AstEval.recurse_assign"), (f"{PKG}/eval.py", "AstEval.ast_delete")], kind="bounded"),
     ] + [Harness(f"bounded.random-statements[thorough {k}/4]", bounded_random(100 * k, 1000), units=[(f"{PKG}/eval.py", "AstEval.ast_name"), (f"{PKG}/eval.py", "AstEval.ast_attribute"),
